@@ -214,3 +214,56 @@ func (g *Gen) actExtIngest() {
 	g.track(vis)
 	g.afterWrite()
 }
+
+// actExtMask: the situation range-key masking with a block-property filter has to get right over
+// suffix-replaced tables: an external table whose STORED suffixes are older than a range key while
+// the suffix the DB shows (the synthetic one) is not; the range key over it; a masking iterator
+// with and without the filter walking both ways.
+func (g *Gen) actExtMask() {
+	u := g.U
+	if !g.R.Cfg.Remote || u.S < 2 || g.P.RangeKeys == 0 || g.R.DB.FormatMajorVersion() < pebble.FormatSyntheticPrefixSuffix {
+		g.actExtIngest()
+		return
+	}
+	R := u.R()
+	syn := 2 + g.Rng.IntN(u.S-1) // 2..S
+	var phys, vis []Ev
+	for p := 0; p < u.P; p++ {
+		s := 1 + g.Rng.IntN(syn-1)
+		k := p*(u.S+1) + (u.S + 1 - s)
+		phys = append(phys, Ev{"o": "set", "k": k, "v": g.v()})
+		vis = append(vis, Ev{"o": "set", "k": p*(u.S+1) + (u.S + 1 - syn)})
+	}
+	g.R.Exec(Ev{"op": "extingest", "pts": phys, "a": 0, "b": R, "syn": syn})
+	g.track(vis)
+	g.afterWrite()
+	// a range key at suffix r <= syn: it is older than (or as old as) the points as shown
+	r := 1 + g.Rng.IntN(syn)
+	a, b := g.pspan()
+	ops := []Ev{{"o": "rkset", "a": a, "b": b, "s": r, "v": g.v()}}
+	g.R.Exec(Ev{"op": "commit", "ops": ops, "sync": false})
+	g.track(ops)
+	g.afterWrite()
+	for _, filter := range []bool{true, false} {
+		if len(g.iters) >= max(1, g.P.MaxIters) {
+			g.closeIter(g.iters[g.Rng.IntN(len(g.iters))])
+		}
+		mask := r + g.Rng.IntN(u.S-r+1) // r..S
+		it := &genIter{h: g.h(), src: 0, cls: g.P.IterCls, lo: 0, hi: R, kt: 2, mask: mask}
+		g.R.Exec(Ev{"op": "newiter", "h": it.h, "src": 0, "cls": it.cls, "lo": 0, "hi": R, "mask": mask, "kt": 2, "filter": filter})
+		g.iters = append(g.iters, it)
+		g.iterOp(it, "first", 0)
+		for n := 0; n < 2*R && g.lastValid; n++ {
+			g.iterOp(it, "next", 0)
+		}
+		g.iterOp(it, "last", 0)
+		for n := 0; n < 2*R && g.lastValid; n++ {
+			g.iterOp(it, "prev", 0)
+		}
+		g.iterOp(it, "seekge", g.Rng.IntN(R))
+		if g.lastValid {
+			g.iterOp(it, "next", 0)
+		}
+		it.dirlock = ""
+	}
+}
